@@ -122,7 +122,8 @@ class SortedSet(MutableSet, Generic[T]):
         if init_values is not None:
             sorted_vals = sorted(init_values)
             # check uniqueness
-            self.values.append(sorted_vals[0])
+            if len(sorted_vals) > 0:
+                self.values.append(sorted_vals[0])
             for i in range(1, len(sorted_vals)):
                 if sorted_vals[i] != sorted_vals[i - 1]:
                     self.values.append(sorted_vals[i])
